@@ -15,7 +15,8 @@ RULE = (
     "TrimmedMean b with m>=2b+1, CAGrad c in [0,3], MGDA budgets). Matrices: 1<=m<=8, 1<=n<=10 (incl. m=1, n=1, "
     "m>n), families grid/Gaussian/prescribed-SVD/low-rank (rank 0..min)/duplicate rows/zero rows/conflicting/"
     "stationary with O(1) entries times 10^e, e in [-12,15] (float32) / [-100,100] (float64). Scenarios: total "
-    "(finite (n,) vector of the input dtype, input bitwise unchanged); reject (0-d/1-d/3-d tensors, NaN/+-inf at a "
+    "(finite (n,) vector of the input dtype, input bitwise unchanged, also when the matrix is a transposed / row-strided / "
+    "column-strided view of a bigger buffer, with the same result as for a contiguous copy); reject (0-d/1-d/3-d tensors, NaN/+-inf at a "
     "drawn position, row count contradicting weights/pref/leak/minimum must raise ValueError; ConFIG exempt); "
     "history (an instance that processed 1-3 other matrices - other shapes, and other dtypes where no configured vector "
     "pins the dtype - returns bitwise what a fresh instance returns; "
@@ -96,7 +97,8 @@ def _case(draw):
     spec = _draw_spec(draw, name, m, rng)
     emax_lo, emax_hi = (-12, 15) if dtype == "float32" else (-100, 100)
     e = draw(st.sampled_from([0, 0, draw(st.integers(-3, 3)), draw(st.integers(emax_lo, emax_hi)), emax_lo, emax_hi]))
-    case = {"scenario": scenario, "agg": spec, "dtype": dtype, "seed": draw(st.integers(0, 2**31 - 1)), "scale_exp": e}
+    case = {"scenario": scenario, "agg": spec, "dtype": dtype, "seed": draw(st.integers(0, 2**31 - 1)), "scale_exp": e,
+            "layout": draw(st.sampled_from(["contiguous", "contiguous", "transposed", "row-strided", "col-strided"]))}
     if scenario == "reject":
         if name == "ConFIG":
             scenario = case["scenario"] = "total"
@@ -170,6 +172,22 @@ def _call(A, Jt, seed):
     return A(Jt)
 
 
+def _with_layout(Jt, layout):
+    """Same values, another memory layout (a user may pass any strided view of a bigger buffer)."""
+    m, n = Jt.shape
+    if layout == "transposed":
+        return Jt.t().contiguous().t()
+    if layout == "row-strided":
+        big = torch.zeros(2 * m, n, dtype=Jt.dtype)
+        big[::2] = Jt
+        return big[::2]
+    if layout == "col-strided":
+        big = torch.zeros(m, 2 * n, dtype=Jt.dtype)
+        big[:, ::2] = Jt
+        return big[:, ::2]
+    return Jt
+
+
 def run_case(case) -> Outcome:
     out = Outcome()
     spec, dtype, sc = case["agg"], case["dtype"], case["scenario"]
@@ -229,6 +247,24 @@ def run_case(case) -> Outcome:
     if r is RAISED:
         return out
     out.check(torch.equal(before, Jt), f"mutates-input:{name}")
+    layout = case.get("layout", "contiguous")
+    if layout != "contiguous" and sc == "total":
+        # the matrix is a value: a non-contiguous view holding the same numbers must be handled (and left untouched)
+        Jl = _with_layout(Jt, layout)
+        out.cls("layout:" + layout)
+        rl = out.call(f"raises-on-{layout}-view:{name}", _call, aggs.make(spec, dtype), Jl, case["seed"])
+        if rl is not RAISED:
+            out.check(torch.equal(Jl, before), f"mutates-input:{name}", f"{layout} view modified")
+            okl = tuple(rl.shape) == (n,) and rl.dtype == Jt.dtype and bool(torch.isfinite(rl).all())
+            out.check(okl, f"layout-view-bad-output:{name}", f"{layout}: {rl}")
+            if okl and name not in DISCONTINUOUS and bool(torch.isfinite(r).all()):
+                from vlib import relations as rel
+
+                if rel.domain_exclusion(spec, dtype, J) is None and s > 0:
+                    wn = rel.weights_norm(A, Jt) if name not in ("ConFIG", "Random") else 1.0
+                    tol_l = rel.base_tolerance(spec, dtype, J, wn, float(r.double().norm()))
+                    out.within(float((rl.double() - r.double()).norm()), tol_l, f"layout-dependence:{name}",
+                               f"{layout} view gives {rl.tolist()}, contiguous copy gives {r.tolist()}")
     ok = tuple(r.shape) == (n,) and r.dtype == Jt.dtype
     out.check(ok, f"shape-dtype:{name}", f"shape {tuple(r.shape)} dtype {r.dtype} for input {tuple(Jt.shape)} {Jt.dtype}")
     fin = bool(torch.isfinite(r).all())
